@@ -103,6 +103,9 @@ fn main() -> color_eyre::Result<()> {
 
 fn compress(input: PathBuf, output: PathBuf, level: u8) -> color_eyre::Result<()> {
     info!("compressing {input:?} to {output:?}");
+    if same_file(&input, &output) {
+        bail!("output file {output:?} is the input file, refusing to overwrite it");
+    }
     let compression_level: ruzstd::encoding::CompressionLevel = match level {
         0 => CompressionLevel::Uncompressed,
         1 => CompressionLevel::Fastest,
@@ -130,6 +133,10 @@ fn compress(input: PathBuf, output: PathBuf, level: u8) -> color_eyre::Result<()
 
 fn decompress(input: PathBuf, output: PathBuf) -> color_eyre::Result<()> {
     info!("extracting {input:?} to {output:?}");
+    // The default output name of an archive without an extension is the archive itself
+    if same_file(&input, &output) {
+        bail!("output file {output:?} is the input file, refusing to overwrite it");
+    }
     let source_file = File::open(input).wrap_err("failed to open input file")?;
     let source_size = source_file.metadata()?.len() as usize;
     let buffered_source = BufReader::new(source_file);
@@ -147,6 +154,16 @@ fn decompress(input: PathBuf, output: PathBuf) -> color_eyre::Result<()> {
         fmt_size(output.metadata()?.len() as f64),
     );
     Ok(())
+}
+
+/// Creating the output file truncates it, which must never happen to the
+/// file that is about to be read.
+fn same_file(input: &Path, output: &Path) -> bool {
+    match (input.canonicalize(), output.canonicalize()) {
+        (Ok(input), Ok(output)) => input == output,
+        // One of them does not exist (yet), they cannot be the same file
+        _ => false,
+    }
 }
 
 /// A temporary utility function that appends a file extension
